@@ -9,7 +9,7 @@
 // attempt = comma separated fields, executed by the protected handler in this order:
 // (hp:K:V append to the value slice, h0:K:V / hl:K:V overwrite first / last value in place)
 // r:all|r:N (read body; rc: via io.Copy, rn: via io.CopyN, rp: via 7-byte Reads), hs:K:V ha:K:V hd:K u:/path (mutate its request copy), rh:K:V (response
-// header), s:CODE, w:LEN.SEED ... (Write calls), fl (Flush if the writer offers it), hj (Hijack).  A view is what the handler saw on
+// header), s:CODE, w:LEN.SEED ... (Write calls; wc: io.Copy, wn: io.CopyN, ws: io.WriteString, wf: fmt.Fprintf), fl (Flush if the writer offers it), hj (Hijack).  A view is what the handler saw on
 // entry: method|url|X-headers|cl=|te=|oh=(other headers same as incoming)|rd=bytes read|tf=temp
 // files on disk when it returned.  w= is what Buffer sent to the ResponseWriter it was given, cl=
 // says whether the real client received exactly that, left= temp files remaining afterwards.
@@ -105,6 +105,7 @@ type attempt struct {
 	respHdr [][2]string
 	status  int // -1 none
 	writes  [][]byte
+	whow    []string // per write: w Write, wc io.Copy, wn io.CopyN, ws io.WriteString, wf fmt.Fprintf
 	hijack  bool
 	flush   bool
 }
@@ -132,7 +133,8 @@ func parseAttempt(s string) attempt {
 			a.status = hx.Atoi(p[1])
 		case p[0] == "rh" && len(p) == 3:
 			a.respHdr = append(a.respHdr, [2]string{p[1], p[2]})
-		case p[0] == "w" && len(p) == 2:
+		case (p[0] == "w" || p[0] == "wc" || p[0] == "wn" || p[0] == "ws" || p[0] == "wf") && len(p) == 2:
+			a.whow = append(a.whow, p[0])
 			ls := strings.Split(p[1], ".")
 			if len(ls) != 2 {
 				panic("bad write")
@@ -312,8 +314,19 @@ func (s *scen) inner(w http.ResponseWriter, r *http.Request) {
 	if a.status >= 0 {
 		w.WriteHeader(a.status)
 	}
-	for _, p := range a.writes {
-		_, _ = w.Write(p)
+	for i, p := range a.writes {
+		switch a.whow[i] {
+		case "wc": // source without WriteTo: io.Copy uses the writer's ReadFrom when it offers one
+			_, _ = io.Copy(w, hideReader{bytes.NewReader(p)})
+		case "wn":
+			_, _ = io.CopyN(w, hideReader{bytes.NewReader(p)}, int64(len(p)))
+		case "ws":
+			_, _ = io.WriteString(w, string(p))
+		case "wf":
+			_, _ = fmt.Fprintf(w, "%s", p)
+		default:
+			_, _ = w.Write(p)
+		}
 	}
 	if a.flush {
 		if fl, ok := w.(http.Flusher); ok {
